@@ -106,6 +106,16 @@ def make_files(d, thorough):
     c2 = os.path.join(d, "tab2.csv")
     write_csv(c2, ["t", "u", "w"], [[-0.5, 0.25, 1.0], [1e-07, -3.5, 2e+20], [-1.75e-05, 6.02e+23, -2.5e-300]])
     out.append(("csv", c2, []))
+    # a table whose last line has no line break (as written by producers that separate rather than terminate lines)
+    c3 = os.path.join(d, "tab3.csv")
+    open(c3, "wb").write(open(c, "rb").read().rstrip(b"\n"))
+    out.append(("csv", c3, []))
+    if thorough:
+        # the same, longer than the 1024 bytes the reader looks at to find delimiter and header
+        c4 = os.path.join(d, "tab4.csv")
+        write_csv(c4, ["x", "y", "n"], [[0.5 + i for i in range(70)], [3.0 - 0.25 * i for i in range(70)], [7 * i + 19 for i in range(70)]])
+        open(c4, "wb").write(open(c4, "rb").read().rstrip(b"\n"))
+        out.append(("csv", c4, []))
     return out
 
 
